@@ -467,3 +467,14 @@ impl InFlight {
         self.ack_eliciting -= u64::from(packet.ack_eliciting);
     }
 }
+
+#[cfg(feature = "quinn_rs_quinn_verif")]
+impl PathResponses {
+    /// (packet, token, remote) of the queued responses, in queue order
+    pub(crate) fn verif_state(&self) -> Vec<(u64, u64, SocketAddr)> {
+        self.pending
+            .iter()
+            .map(|x| (x.packet, x.token, x.remote))
+            .collect()
+    }
+}
